@@ -18,12 +18,13 @@ def _refused(core):
 
 
 @rigged
-def no_refused_decision(src, n=2, peer_views='abstract', steps=c02.STEPS, fsm_states=FC.FSM):
+def no_refused_decision(src, n=2, peer_views='abstract', steps=c02.STEPS, fsm_states=FC.FSM,
+                        sync=FC.SYNC_CHOICES):
     """H08a: whatever a state decides from any situation is accepted by set_state; a refused decision parks the
     instance because the same decision is taken again at every evaluation"""
     st, ev_from = c02.pick_step(src, n, steps)
     core, sit = FC.build(src, n=n, peer_views=peer_views, fsm_states=fsm_states, blank_peer=ev_from,
-                         failure=('CONTINUE', 'RESYNC'))
+                         failure=('CONTINUE', 'RESYNC'), sync=sync)
     sit.update(step=st, ev_from=ev_from, peer_views=peer_views)
     if st in ('restart', 'shutdown', 'end_sync'):
         from supvisors.ttypes import SupvisorsInstanceStates as S
@@ -172,9 +173,10 @@ HARNESSES = [
             thorough=None, reach=('quiescent',), timeout=(100, 0), doc='same with supvisors_failure_strategy RESYNC'),
     Harness('H08c-delays', recovery, quick=None, thorough={'n': 2, 'faults': 1, 'delays': 1}, reach=('quiescent',),
             timeout=(0, 1800), doc='same with one held task'),
-    Harness('H08a', no_refused_decision, quick={'n': 2, 'steps': ('tick', 'state_event')},
+    Harness('H08a', no_refused_decision, quick={'n': 2, 'steps': ('tick', 'state_event'),
+                                                'sync': ('LIST', 'TIMEOUT', 'CORE', 'USER')},
             thorough={'n': 2, 'peer_views': 'full'},
-            reach=('evaluated',), timeout=(150, 1500),
+            reach=('evaluated',), timeout=(240, 1800),
             doc='no decision of a state class is refused by the transition table (unexpected transition)'),
 ]
 BOUNDS = {'quick': {'instances': 2, 'steps': 1, 'catch_up_evaluations': 3}, 'thorough': {'instances': '2..3'}}
